@@ -283,6 +283,7 @@ def producers():
         ("fill_blackbox(child with a nested blackbox)", _fill_nested),
         ("remove_unloaded(flop with dead logic)", _ru_flop),
         ("remove_unloaded(inputs=True)", _ru_plain),
+        ("remove_unloaded(flop with dead logic, inputs=True)", lambda c: _ru_flop(c, True)),
         ("add_blackbox(two nets on one input pin)", lambda c: _two_drivers(c, "add_blackbox")),
         ("connect(second driver onto a pin)", lambda c: _two_drivers(c, "connect")),
         ("add(second driver onto a pin)", lambda c: _two_drivers(c, "add")),
@@ -357,7 +358,7 @@ def _bb_hier(c):
     return r
 
 
-def _ru_flop(c):
+def _ru_flop(c, inputs=False):
     """remove_unloaded on a lint-clean circuit with a flop whose second output only feeds dead logic."""
     import circuitgraph as cg
 
@@ -373,7 +374,7 @@ def _ru_flop(c):
     r.add_blackbox(cg.BlackBox("FD", ["CK", "D"], ["Q", "QN"]), "r0",
                    {"CK": "clk_net", "D": sorted(c.outputs())[0], "Q": "q_net", "QN": "qn_net"})
     cg.lint(r)
-    r.remove_unloaded()
+    r.remove_unloaded(inputs=inputs)
     return r
 
 
